@@ -296,6 +296,25 @@ func runC09(c *ctx) {
 			keys = append(keys, k)
 		}
 		sort.Strings(keys)
+		if i%9 == 5 {
+			// a fill-in item that brings its own variable is inserted as is: a key naming that inner variable names no
+			// variable of the template and is ignored (single-step law only; composition is not quantified over these)
+			n := 0
+			for k, v := range cs.Sub {
+				if v.Item != nil {
+					inner := fmt.Sprintf("zzInner%d", n)
+					n++
+					cs.Sub[k] = ref.Val{Item: &ref.Item{Kind: ref.U1, Slots: []ref.Slot{{Var: inner}, {Uint: 3}}}}
+					cs.Unknown = append(cs.Unknown, inner)
+				}
+			}
+			if n > 0 {
+				c.Class("fill-in-item-with-its-own-variable")
+				cs.Msg = nil
+				c09Eval(c, cs)
+				return
+			}
+		}
 		switch {
 		case i%7 == 3 && len(full) > 0:
 			// out-of-domain values
@@ -335,7 +354,7 @@ func runC09(c *ctx) {
 			c09Eval(c, cs)
 		}
 	})
-	c.Required = []string{"total-assignment", "partial-assignment", "empty-assignment", "out-of-domain-values", "refused-by-both", "split-into-2", "split-into-3", "message-level", "message-observed-before-fill"}
+	c.Required = []string{"total-assignment", "partial-assignment", "empty-assignment", "out-of-domain-values", "refused-by-both", "split-into-2", "split-into-3", "message-level", "message-observed-before-fill", "fill-in-item-with-its-own-variable"}
 }
 
 func replayC09(c *ctx, raw json.RawMessage) {
